@@ -1,4 +1,4 @@
-CONSTANTS Values = {2147483647}  Wants = {"prv", "pub", "dflt"}  PathSet = "none"  MaxOps = 4  SeedLen = 16  KeyMode = "full"
+CONSTANTS Values = {2147483647}  Wants = {"prv", "pub", "dflt"}  PathSet = "none"  MaxOps = 4  SeedLen = 16  KeyMode = "full"  TwoRoots = FALSE
 SPECIFICATION Spec
 VIEW View
 INVARIANTS CacheTransparent ResultIsPure CompactSound MemoSound PublicStaysPublic ResOk
